@@ -80,7 +80,11 @@ Theorem C01_function_roundtrip : forall t name args, wf_ty t -> depth t < depth_
   exists v p', interp spec_grammar f (GRef "GlobalFunction") {| pk := p; rest := render (fn_toks t name args) R |}
                = Match [([], v)] {| pk := p'; rest := R |}
                /\ b_decl depth_fuel v = Ok (DFun {| f_tmpl := None; f_name := name; f_ret := RSingle t; f_args := map mk_arg args |}).
-Proof. exact function_roundtrip. Qed.
+Proof.
+  intros t name args Hw Hd Hh Hn Ha p R f Hf.
+  destruct (function_roundtrip t name args Hw Hd Hh Hn Ha p R f Hf) as [v [p' [E B]]].
+  exists v, p'. split; [exact E | exact (B 199)].
+Qed.
 Print Assumptions C01_function_roundtrip.
 
 Example C01_function_nonvacuous :
@@ -124,6 +128,37 @@ Proof.
                  | |- _ /\ _ => split
                  end ];
     try reflexivity; try discriminate; try (vm_compute; tauto); try (vm_compute; lia); try (vm_compute; intuition discriminate).
+Qed.
+
+(* Nesting.  Declaration trees - functions inside namespaces nested to any depth (below the constructors' depth limit
+   of 200 levels) - printed with one blank before every token, come back from Module.parseString as exactly that tree:
+   the namespace rule is chosen by the alternation (every other alternative fails on `namespace name {`: a function
+   needs `(` after the name, a property `=` or `;`), its content is again a run of declarations that stops at the
+   closing brace, and the constructors rebuild DNamespace with the content in order. *)
+Theorem C01_items_roundtrip : forall items, (forall i, In i items -> idepth i < depth_fuel /\ wf_item i) ->
+  parse_module spec_grammar (print_items items) = Ok (map idecl items).
+Proof. exact items_roundtrip. Qed.
+Print Assumptions C01_items_roundtrip.
+
+Definition sample_tree : list item :=
+  [ IFn (TPlain (tn [] "void") false PNone true, "f", [(TPlain (tn ["gtsam"] "Pose3") true PRef false, "p")]);
+    INs "outer" [ INs "inner" [ IFn (sample_type, "make", [(sample_type, "x")]) ]; INs "empty" [];
+                  IFn (TPlain (tn [] "Key") false PNone false, "g", []) ];
+    IFn (TPlain (tn [] "double") false PNone true, "h", []) ]%string.
+Example C01_items_nonvacuous :
+  (forall i, In i sample_tree -> idepth i < depth_fuel /\ wf_item i) /\
+  print_items sample_tree =
+    (" void f ( const gtsam :: Pose3 & p ) ;" ++
+     " namespace outer { namespace inner {" ++
+     " const gtsam :: Foo < int , std :: vector < Bar * > , const ns :: a :: K < double & > @ > & make" ++
+     " ( const gtsam :: Foo < int , std :: vector < Bar * > , const ns :: a :: K < double & > @ > & x ) ; }" ++
+     " namespace empty { } Key g ( ) ; } double h ( ) ;")%string /\
+  print_decls (map idecl sample_tree) = Some (print_items sample_tree).
+Proof.
+  split; [|split; vm_compute; reflexivity].
+  intros i Hi. split.
+  - cbn in Hi. repeat (destruct Hi as [E|Hi]; [subst i; vm_compute; lia|]). destruct Hi.
+  - apply (wf_itemb_ok (S (idepth i))); [lia|]. cbn in Hi. repeat (destruct Hi as [E|Hi]; [subst i; vm_compute; reflexivity|]). destruct Hi.
 Qed.
 
 (* The domain of the theorem is decidable (wf_fnb, fns_of): print_decls is what the extracted model answers to the
